@@ -129,6 +129,15 @@ func (e *env) next() (fen, src string) {
 	case k < 2*posgen.CastleSweepSize+len(epTargetSweep):
 		e.r.Count("eptarget-sweep", 1)
 		return epTargetSweep[k-2*posgen.CastleSweepSize], "eptarget-sweep"
+	case e.c.Rng.IntN(14) == 0:
+		// a recorded en-passant target whose capture is illegal because the captured pawn shields the king on a
+		// diagonal (FEN only; valid, not epSound): the capture is generated, only the legality filter rejects it
+		for try := 0; try < 200; try++ {
+			if ps, kind, ok := posgen.EPShield(e.c.Rng); ok {
+				e.r.Count("ep-"+kind, 1)
+				return ps.FEN(), "ep-shield"
+			}
+		}
 	case e.c.Rng.IntN(6) == 0:
 		src = "castlepath"
 		for try := 0; try < 20 && !ok; try++ {
@@ -548,6 +557,10 @@ func (e *env) c01Filters(fen, src string, b *board.Board, st posgen.Stats, all [
 	if b.InvalidPieceCount() {
 		return // the engine refuses to search such positions (uci position command)
 	}
+	// (iii) the move loop of a completed shallow search
+	if src == "ep-shield" || (st.HasEP && rng.IntN(3) == 0) || (anyIllegal && rng.IntN(12) == 0) {
+		e.c01Search(fen, spec, probe)
+	}
 	legalSet := map[string]bool{}
 	if spec != "" {
 		for _, m := range strings.Split(spec, ",") {
@@ -591,6 +604,42 @@ func (e *env) c01Filters(fen, src string, b *board.Board, st posgen.Stats, all [
 					Impl: fmt.Sprintf("%d (%s)", mv, mv), Spec: spec, Note: "the move returned by the aborted search is not a rule-book legal move (or 0 although a legal move exists / a move although none exists)"})
 			}
 		})
+	}
+}
+
+// c01Search is the third copy of the filter: the move loop of the search itself.  A COMPLETED shallow search
+// (depth 3, at most 4000 nodes) of the root must return a rule-book legal move and must not panic (an illegal
+// move let through one ply below the root is answered by a king capture, which the rankers index out of range).
+func (e *env) c01Search(fen string, spec string, probe *search.Search) {
+	defer func() {
+		if r := recover(); r != nil {
+			e.r.Fail(common.Mismatch{Property: "C01", Kind: "failing-input", Ops: []string{"fen " + fen, "go depth 3 nodes 4000"}, Impl: fmt.Sprint("panic: ", r),
+				Spec: spec, Note: "the search panicked: an illegal move passed its legality filter (the reply captures the king)"})
+		}
+	}()
+	sb, err := board.FromFEN(fen)
+	if err != nil || sb.InvalidPieceCount() {
+		return
+	}
+	_, mv, _ := probe.Go(sb, search.WithOutput(nil), search.WithDepth(3), search.WithNodes(4000))
+	e.r.Evaluations++
+	e.r.Count("filter-completed-shallow-search", 1)
+	ok := false
+	switch {
+	case spec == "":
+		ok = mv == 0
+	case mv == 0:
+		ok = sb.FiftyCnt >= 100
+	default:
+		for _, m := range strings.Split(spec, ",") {
+			if m == strconv.Itoa(int(mv)) {
+				ok = true
+			}
+		}
+	}
+	if !ok {
+		e.r.Fail(common.Mismatch{Property: "C01", Kind: "failing-input", Ops: []string{"fen " + fen, "go depth 3 nodes 4000"},
+			Impl: fmt.Sprintf("%d (%s)", mv, mv), Spec: spec, Note: "the move returned by the search is not a rule-book legal move"})
 	}
 }
 
@@ -2560,6 +2609,8 @@ func (e *env) c10() {
 	e.c10EPHistories(e.c.Pick(580, 20000))
 	// several boards alive at once, advanced alternately (aliasing between board values)
 	e.c10Aliasing(e.c.Pick(45, 1500))
+	// whole games through the UCI driver: growing move lists on one driver, Threefold() of the board the search is handed
+	e.c10UCI(e.c.Pick(80, 1500))
 }
 
 // c10obs is one observation of Threefold() on a board whose history is the first k moves of its game.
